@@ -46,6 +46,11 @@ TRAINERS = [
     ("jfa", dict(y="mixed")),
     ("wccn", dict(y="inter")),
     ("whitening", dict()),
+    ("wccn", dict(y="mixed", big=2.0e6 + 0.1)),
+    ("whitening", dict(big=-3.0e6 - 0.3)),
+    ("gmm_ml", dict(sw=(1, 1, 1), cap=8, thr=1e-3)),
+    ("gmm_ml", dict(sw=(1, 1, 1), cap=8, thr=0.05)),
+    ("gmm_map", dict(sw=(1, 0, 1), cap=8, thr=1e-3)),
 ]
 
 
@@ -75,7 +80,7 @@ def cases(tier, seed):
 def _setup(case):
     s, o = affine(case["seed"])
     n = case["n"]
-    X = np.array(X12 if case["trainer"] == "km_parallel_init" else X6[:n], dtype=float) * s + o
+    X = np.array(X12 if case["trainer"] == "km_parallel_init" else X6[:n], dtype=float) * s + o + case["cfg"].get("big", 0.0)
     return X, s, o
 
 
